@@ -31,7 +31,7 @@ def prog_to_text(prog):
         raise ValueError(a)
     def con(r):
         c = r.get('con')
-        return '~c%d%s%d' % (c[0], c[1], c[2]) if c else ''
+        return ('~c%d%s%d' % (c[0], c[1], c[2]) if c else '') + ('~r%d' % r['ret'] if r.get('ret') else '')
     return '/'.join('%d:' % p.get('maxloop', 5) + ';'.join('%d~%s~%s%s' % (r['pre'], ','.join('.'.join(map(str, sorted(s))) for s in r['pat']),
                                                          ','.join('&'.join(act(a) for a in al) if al else '-' for al in r['acts']), con(r)) for r in p['rules']) for p in prog)
 
@@ -78,7 +78,10 @@ def compile_action(rule, classes):
         if deleted:
             bc += [OP['DELETE']]
         bc += [OP['NEXT']]
-    bc += [OP['RET_ZERO']]
+    if rule.get('ret'):
+        bc += [OP['PUSH_BYTE'], rule['ret'] & 255, OP['POP_RET']]
+    else:
+        bc += [OP['RET_ZERO']]
     return bytes(bc)
 
 
